@@ -138,9 +138,15 @@ func evalC10(pos string, d []byte) (vs []*Violation) {
 				add("ParseOneContact", "q-out-of-range-flagged", cl, fmt.Sprintf("q=%s: Q unset but ParamErr not set", d))
 			}
 		}
-	case "port", "port-user", "port-params", "port-hdrs", "port-digitpass", "port-digitpass6", "port-numpass", "port-userparam", "port-tel":
+	case "port", "port-user", "port-params", "port-hdrs", "port-digitpass", "port-digitpass6", "port-numpass", "port-userparam", "port-tel", "port-bigpass", "port-bigpass-x", "port-bigpass0":
 		var s string
 		switch pos {
+		case "port-bigpass": // a password that looks like a port above 65535
+			s = "sip:alice:123456@example.com:" + string(d)
+		case "port-bigpass-x":
+			s = "sip:u:65536x@h:" + string(d)
+		case "port-bigpass0":
+			s = "sips:u:00099999@[::1]:" + string(d) + ";lr"
 		case "port-digitpass":
 			s = "sip:alice:1a@example.com:" + string(d)
 		case "port-digitpass6":
@@ -289,7 +295,7 @@ func evalC10q(s []byte) (vs []*Violation, valid bool) {
 	return
 }
 
-var c10Positions = []string{"cseq", "clen", "expires", "c-expires", "q-int", "port", "port-user", "port-params", "port-hdrs", "port-digitpass", "port-digitpass6", "port-numpass", "port-userparam", "port-tel", "parsecmp-reuse", "port-v6-backtrack", "port-v6-backtrack-h"}
+var c10Positions = []string{"cseq", "clen", "expires", "c-expires", "q-int", "port", "port-user", "port-params", "port-hdrs", "port-digitpass", "port-digitpass6", "port-numpass", "port-userparam", "port-tel", "parsecmp-reuse", "port-v6-backtrack", "port-v6-backtrack-h", "port-bigpass", "port-bigpass-x", "port-bigpass0"}
 
 func c10Boundaries() []*big.Int {
 	var bs []*big.Int
@@ -346,6 +352,26 @@ func checkC10(r *Run) {
 			}
 			run(c, []byte(v.String()))
 		}
+		// the boundary value (and its neighbours) followed by 1-3 further digits: a number that is cut off at the limit
+		// looks in range
+		for _, d := range []int64{-1, 0, 1} {
+			b := new(big.Int).Add(bnd[i], big.NewInt(d)).String()
+			for k := 0; k < 1110; k++ {
+				var tail string
+				switch {
+				case k < 10:
+					tail = fmt.Sprintf("%01d", k)
+				case k < 110:
+					tail = fmt.Sprintf("%02d", k-10)
+				default:
+					tail = fmt.Sprintf("%03d", k-110)
+				}
+				run(c, []byte(b+tail))
+				if k < 110 {
+					run(c, []byte("00"+b+tail))
+				}
+			}
+		}
 		// leading zeros and long strings
 		for z := 1; z <= 30; z++ {
 			for _, d := range []int64{-1, 0, 1} {
@@ -374,6 +400,58 @@ func checkC10(r *Run) {
 			r.Col.add(v)
 		}
 	})
+	// whole messages: every status code (and a few request methods) x several Content-Length / CSeq / Expires
+	// spellings: each number as reported by the message parser is the one written in its own header, whatever the
+	// first line or the other headers say
+	{
+		firsts := []string{"INVITE sip:a@b SIP/2.0", "REGISTER sip:r SIP/2.0", "FOO sip:x SIP/2.0"}
+		for code := 0; code < 1000; code++ {
+			firsts = append(firsts, fmt.Sprintf("SIP/2.0 %03d Reason", code))
+		}
+		parallelFor(r, len(firsts), func(c *enumCtx, i int) {
+			for _, cl := range []string{"0", "5", "11", "007", "16777216"} {
+				for _, num := range []string{"1", "204", "4294967295"} {
+					hdrs := "Call-ID: x\r\nCSeq: " + num + " INVITE\r\nExpires: " + num + "\r\nContact: <sip:a@b>;expires=" + num + ";q=0.204\r\nContent-Length: " + cl + "\r\n\r\n"
+					n, _ := new(big.Int).SetString(cl, 10)
+					body := ""
+					if n.Int64() < 100 {
+						body = strings.Repeat("b", int(n.Int64()))
+					}
+					for _, fl := range []uint8{0, sipsp.SIPMsgSkipBodyF} {
+						if body == "" && n.Sign() > 0 && fl == 0 {
+							continue
+						}
+						buf := []byte(firsts[i] + "\r\n" + hdrs + body)
+						var m sipsp.PSIPMsg
+						m.Init(nil, nil, nil)
+						_, e := sipsp.ParseSIPMsg(buf, 0, &m, fl)
+						c.st.Evals++
+						c.st.Transitions++
+						if e != 0 {
+							continue
+						}
+						bad := ""
+						want, _ := new(big.Int).SetString(num, 10)
+						switch {
+						case uint64(m.PV.CLen.UIVal) != n.Uint64():
+							bad = fmt.Sprintf("Content-Length %s reported as %d", cl, m.PV.CLen.UIVal)
+						case uint64(m.PV.CSeq.CSeqNo) != want.Uint64():
+							bad = fmt.Sprintf("CSeq %s reported as %d", num, m.PV.CSeq.CSeqNo)
+						case uint64(m.PV.Expires.UIVal) != want.Uint64():
+							bad = fmt.Sprintf("Expires %s reported as %d", num, m.PV.Expires.UIVal)
+						case m.PV.Contacts.N != 1 || uint64(m.PV.Contacts.GetContact(0).Expires) != want.Uint64() || m.PV.Contacts.GetContact(0).Q != 204:
+							bad = fmt.Sprintf("contact expires %s / q 0.204 reported as %d / %d", num, m.PV.Contacts.GetContact(0).Expires, m.PV.Contacts.GetContact(0).Q)
+						case i >= 3 && int(m.FL.Status) != i-3:
+							bad = fmt.Sprintf("status %03d reported as %d", i-3, m.FL.Status)
+						}
+						if bad != "" {
+							r.Col.add(&Violation{Property: "C10", Site: "ParseSIPMsg", Rule: "value-equals-digit-string", Class: "whole-message/" + strings.Fields(bad)[0], Detail: bad, Case: mkCase("C10msg", "ParseSIPMsg", &Cfg{Flags: uint(fl)}, buf, nil)})
+						}
+					}
+				}
+			}
+		})
+	}
 	// a parameter written without a value has no digit string: it reports no number, whatever stands before it
 	{
 		c0 := &enumCtx{r: r, st: newStats()}
@@ -448,6 +526,48 @@ func init() {
 			return vs
 		}
 		return evalC10(pos, c.input())
+	}
+	replayers["C10msg"] = func(prop string, c *Case) []*Violation {
+		// re-parse and compare every number with the digits of its own header (found by a plain text search)
+		buf := c.input()
+		var m sipsp.PSIPMsg
+		m.Init(nil, nil, nil)
+		if _, e := sipsp.ParseSIPMsg(buf, 0, &m, uint8(c.Cfg.Flags)); e != 0 {
+			return nil
+		}
+		field := func(name, end string) uint64 {
+			t := string(buf)
+			i := strings.Index(t, name)
+			if i < 0 {
+				return 0
+			}
+			t = t[i+len(name):]
+			if j := strings.IndexAny(t, end); j >= 0 {
+				t = t[:j]
+			}
+			v, _ := new(big.Int).SetString(strings.TrimSpace(t), 10)
+			if v == nil {
+				return 0
+			}
+			return v.Uint64()
+		}
+		bad := ""
+		switch {
+		case uint64(m.PV.CLen.UIVal) != field("Content-Length: ", "\r"):
+			bad = "Content-Length"
+		case uint64(m.PV.CSeq.CSeqNo) != field("CSeq: ", " "):
+			bad = "CSeq"
+		case uint64(m.PV.Expires.UIVal) != field("Expires: ", "\r"):
+			bad = "Expires"
+		case m.PV.Contacts.N != 1 || uint64(m.PV.Contacts.GetContact(0).Expires) != field(";expires=", ";") || m.PV.Contacts.GetContact(0).Q != 204:
+			bad = "contact"
+		case strings.HasPrefix(string(buf), "SIP/2.0 ") && uint64(m.FL.Status) != field("SIP/2.0 ", " "):
+			bad = "status"
+		}
+		if bad != "" {
+			return []*Violation{{Property: prop, Site: "ParseSIPMsg", Rule: "value-equals-digit-string", Class: "whole-message/" + bad, Case: c}}
+		}
+		return nil
 	}
 	replayers["C10valueless"] = func(prop string, c *Case) []*Violation {
 		buf := c.input()
